@@ -769,3 +769,7 @@ mod tests {
         Ok(())
     }
 }
+
+#[cfg(kani)]
+#[path = "/verif/harness/backend_decrypt.rs"]
+pub(crate) mod verif_harness;
